@@ -20,7 +20,7 @@ MIN_CASES_PER_SHARD = 50
 CASE_TIMEOUT = 30
 RULE = ("one case = one generated map (3..12 nodes; magnitudes: unit scale, projected metres ~1e7, degrees; classes: random, "
         "dyadic grid, a node millimetres inside a 2-50 km disc at its extreme-longitude point at high latitude, long edges crossing the disc, items within one float32 ulp of the search-box border, items exactly at "
-        "the radius) loaded in InMemMap and SqliteMap, with 4 query points x radii (incl. infinite) x max_elmt; every "
+        "the radius) loaded in InMemMap and SqliteMap, optionally with labels added a second time, with 4 query points x radii (incl. infinite) x max_elmt; every "
         "nodes_closeto/edges_closeto answer is compared with the model's full scan. Non-trivial = the true answer is neither "
         "empty nor everything; distinct = hash of (map, query)")
 ANCHORS = [("leuvenmapmatching/map/inmem.py", "InMemMap.nodes_closeto"),
